@@ -29,6 +29,11 @@
 #include "internal/rewind_guard.hpp"
 #include "internal/until.hpp"
 
+#if defined( TAO_PEGTL_VERIF )
+// Verification hook (guarded, add-only): reports a read or an advance outside the window [ current(), end() ).
+extern "C" void tao_pegtl_verif_out_of_window( const void* input, std::size_t value, std::size_t available ) noexcept;
+#endif
+
 namespace TAO_PEGTL_NAMESPACE
 {
    namespace internal
@@ -98,16 +103,31 @@ namespace TAO_PEGTL_NAMESPACE
 
          void bump( const std::size_t in_count = 1 ) noexcept
          {
+#if defined( TAO_PEGTL_VERIF )
+            if( in_count > std::size_t( m_end - current() ) ) {
+               ::tao_pegtl_verif_out_of_window( this, in_count, std::size_t( m_end - current() ) );
+            }
+#endif
             internal::bump( m_current, in_count, Eol::ch );
          }
 
          void bump_in_this_line( const std::size_t in_count = 1 ) noexcept
          {
+#if defined( TAO_PEGTL_VERIF )
+            if( in_count > std::size_t( m_end - current() ) ) {
+               ::tao_pegtl_verif_out_of_window( this, in_count, std::size_t( m_end - current() ) );
+            }
+#endif
             internal::bump_in_this_line( m_current, in_count );
          }
 
          void bump_to_next_line( const std::size_t in_count = 1 ) noexcept
          {
+#if defined( TAO_PEGTL_VERIF )
+            if( in_count > std::size_t( m_end - current() ) ) {
+               ::tao_pegtl_verif_out_of_window( this, in_count, std::size_t( m_end - current() ) );
+            }
+#endif
             internal::bump_to_next_line( m_current, in_count );
          }
 
@@ -190,16 +210,31 @@ namespace TAO_PEGTL_NAMESPACE
 
          void bump( const std::size_t in_count = 1 ) noexcept
          {
+#if defined( TAO_PEGTL_VERIF )
+            if( in_count > std::size_t( m_end - current() ) ) {
+               ::tao_pegtl_verif_out_of_window( this, in_count, std::size_t( m_end - current() ) );
+            }
+#endif
             m_current += in_count;
          }
 
          void bump_in_this_line( const std::size_t in_count = 1 ) noexcept
          {
+#if defined( TAO_PEGTL_VERIF )
+            if( in_count > std::size_t( m_end - current() ) ) {
+               ::tao_pegtl_verif_out_of_window( this, in_count, std::size_t( m_end - current() ) );
+            }
+#endif
             m_current += in_count;
          }
 
          void bump_to_next_line( const std::size_t in_count = 1 ) noexcept
          {
+#if defined( TAO_PEGTL_VERIF )
+            if( in_count > std::size_t( m_end - current() ) ) {
+               ::tao_pegtl_verif_out_of_window( this, in_count, std::size_t( m_end - current() ) );
+            }
+#endif
             m_current += in_count;
          }
 
@@ -297,6 +332,11 @@ namespace TAO_PEGTL_NAMESPACE
 
       [[nodiscard]] char peek_char( const std::size_t offset = 0 ) const noexcept
       {
+#if defined( TAO_PEGTL_VERIF )
+         if( offset >= size() ) {
+            ::tao_pegtl_verif_out_of_window( this, offset, size() );
+         }
+#endif
          return this->current()[ offset ];
       }
 
